@@ -28,15 +28,18 @@ NewNickOK(r) ==
 
 OK(r) == IF r.kind = "soup" THEN RobustOK(r) ELSE NewNickOK(r)
 TInit == l = 1
-Note(i) == IF Cardinality(TLCGet(2)) < 4 THEN PrintT(<<"NONCONFORMING", i, TraceLog[i]>>) ELSE TRUE
+\* register 2: tracker records (C13), register 3: nick generator records (C17)
+Reg(i) == IF TraceLog[i].kind = "soup" THEN 2 ELSE 3
+Note(i) == IF Cardinality(TLCGet(Reg(i))) < 4 THEN PrintT(<<"NONCONFORMING", i, TraceLog[i]>>) ELSE TRUE
 TNext == /\ l <= Len(TraceLog)
-         /\ IF OK(TraceLog[l]) THEN TRUE ELSE Note(l) /\ TLCSet(2, TLCGet(2) \cup {l})
+         /\ IF OK(TraceLog[l]) THEN TRUE ELSE Note(l) /\ TLCSet(Reg(l), TLCGet(Reg(l)) \cup {l})
          /\ l' = l + 1
 TraceSpec == TInit /\ [][TNext]_l
 HW == TLCSet(1, IF l > TLCGet(1) THEN l ELSE TLCGet(1))
-ASSUME TLCSet(1, 0) /\ TLCSet(2, {})
+ASSUME TLCSet(1, 0) /\ TLCSet(2, {}) /\ TLCSet(3, {})
 Accepted ==
   /\ TLCGet(1) = Len(TraceLog) + 1
-  /\ IF TLCGet(2) = {} THEN TRUE
-     ELSE Print(<<"REJECTED at event", Cardinality(TLCGet(2)), "records do not conform, indices", TLCGet(2)>>, FALSE)
+  /\ PrintT(<<"VERDICT", "C13", Cardinality(TLCGet(2)), "C17", Cardinality(TLCGet(3))>>)
+  /\ IF TLCGet(2) = {} /\ TLCGet(3) = {} THEN TRUE
+     ELSE Print(<<"REJECTED at event", Cardinality(TLCGet(2) \cup TLCGet(3)), "records do not conform, indices", TLCGet(2) \cup TLCGet(3)>>, FALSE)
 =============================================================================
